@@ -998,6 +998,18 @@ class Interp:
         """Inline a package function (bounded depth) when it is a simple expression helper; else opaque."""
         args = [self.ev(a) for a in e.args]
         kws = {k.arg: self.ev(k.value) for k in e.keywords if k.arg}
+        # keyword arguments of a package function are put in their parameter positions (as far as the positions are
+        # contiguous): `f(a, c=z, b=y)` is recorded and inlined exactly like `f(a, y, z)`
+        if not f.is_lambda and not (f.vararg or f.kwarg) and kws and all(k_ in f.params for k_ in kws) and \
+                not any(isinstance(a, ast.Starred) for a in e.args):
+            full = list(args)
+            rest = dict(kws)
+            for p_ in f.params[len(args):]:
+                if p_ in rest:
+                    full.append(rest.pop(p_))
+                else:
+                    break
+            args, kws = full, rest
         inl = getattr(self, 'inline_all', None)
         if inl and self.inline_depth > 0 and not f.is_lambda and f is not self.func and \
                 f.qualname not in getattr(self, 'inline_stack', ()) and not (f.vararg or f.kwarg) and inl(f) and \
